@@ -28,13 +28,13 @@ CHECKS = {
                 technique="reference-model monitor (creation type) over sanitizer-instrumented executions",
                 text="Every card opening produced by the workload (both encodings, three group kinds, k up to 16, all "
                      "types for small w, random re-masking chains, timing protection on/off, every opener; partial "
-                     "openings for the dlog encoding) is compared with the type the card was created with, under "
+                     "openings for the dlog encoding; a rejected-then-resent contribution; worlds in which 1-2 players left after key generation) is compared with the type the card was created with, under "
                      "ASan+UBSan.  Exploration is the right level: the property quantifies over unbounded chains and "
                      "coins, which only sampling reaches.",
                 note=SAN_NOTE),
     "C03": dict(ready=True, engine="two-party-engine", level="exploration", design_ref="DESIGN.md section 3 / C03",
                 technique="expected-accept monitor over honest prover/verifier executions on line channels (ASan+UBSan)",
-                text="All 39 public prover/verifier pairs of the library (harness/protos.hh: key share proofs, CP/OR, masking, "
+                text="All 39 public prover/verifier pairs of the library (harness/protos.hh; also in worlds whose importing instances declare smaller admissible sizes than the group has: key share proofs, CP/OR, masking, "
                      "re-masking, decryption, card and stack proofs in cut-and-choose / interactive / public-coin / "
                      "non-interactive form, Groth and rotation arguments directly, commitments, coin flip, Rabin key "
                      "validity and signatures) are run honestly as two cooperative tasks over in-memory line channels for "
@@ -60,7 +60,7 @@ CHECKS = {
     "C07": dict(ready=True, engine="interposition", level="exploration", design_ref="DESIGN.md section 3 / C07, notes/c07.md",
                 technique="statistical monitor: hard range oracle on every draw + chi-square goodness of fit (p<1e-9, re-test on an independent stream before alarm), p-values cross-checked by a Python reference",
                 text="289 multinomial tables per run (full n! histograms n=3..6, position x value and adjacent-pair marginals up to n=64, "
-                     "rotation offsets, bounded sampler for small moduli and moduli just above 2^63, residue sampler for 22 moduli, "
+                     "rotation offsets, bounded sampler for small moduli and moduli just above 2^63, residue sampler for 32 moduli (small, 2^k+-1, word aligned, and bit lengths just below a multiple of 8/64), "
                      "bit strings) over ~5.6e7 draws with the interposed PRNG, plus a stage with the real libgcrypt RNG at all three "
                      "quality levels; every draw is range-checked.  Statistical exploration is what uniformity admits; biases below "
                      "~1/sqrt(N) per cell are out of reach.",
@@ -82,7 +82,7 @@ CHECKS = {
     "C10": dict(ready=True, engine="case-runner", level="fault_enumeration", design_ref="DESIGN.md section 3 / C10, notes/c10.md",
                 technique="round-trip and tamper monitor with a Python reference deciding equivalence (same square mod m) for every mutated field",
                 text="Eight Rabin keys per run (424..1024 bit, with and without validity proof): signature and encryption round trips "
-                     "(all four roots), and the QR mutation catalogue on every field of signature, ciphertext and key text, forged "
+                     "(all four roots; 1200 bulk round trips per key so that padded-block classes of probability 2^-8 occur), and the QR mutation catalogue on every field of signature, ciphertext and key text, forged "
                      "SAEP/PRab paddings, re-signed invalid keys (fewer proof rounds, altered proof values); a Python reference "
                      "re-decides every recorded evaluation.",
                 note=SAN_NOTE),
@@ -104,7 +104,7 @@ CHECKS = {
     "C04": dict(ready=True, engine="two-party-engine", level="exploration", design_ref="DESIGN.md section 3 / C04, notes/c04.md",
                 technique="refusal monitor over false statements (each first confirmed false with the harness's secrets) and an accept-iff-guess-equals-observed-challenge monitor with scripted verifier coins",
                 text="~1460 runs with false statements (substituted, duplicated, dropped, re-typed, non-member cards; non-cyclic "
-                     "permutations for the rotation verifiers; type-changing masks; shares of another key; shifted key shares) over "
+                     "permutations for the rotation verifiers; type-changing masks with 1, 2 and several flipped mask bits; shares of another key; shifted key shares) over "
                      "all variants and both encodings, proved by the library prover on the false statement or by replay of an "
                      "honest transcript; ~2000 (guess, coin) pairs of guessing provers against the cut-and-choose verifiers, "
                      "exhaustive for kappa<=4 (kappa<=8 thorough): accepted iff the guess equals the challenge string seen on the wire.",
@@ -134,24 +134,24 @@ CHECKS = {
                 note=SAN_NOTE + "; 'eventually' is replaced by quiescence of a closed system; no protocol-model exhaustiveness (other technique family); n<=7"),
     "C15": dict(ready=True, engine="simnet", level="exploration", design_ref="DESIGN.md section 3 / C15, notes/c15.md",
                 technique="end-state monitor with an independent Lagrange interpolation over every (t+1)-subset of honest shares, after real n-party runs in the deterministic simulator with scripted deviations",
-                text="152 scenarios per quick run over six protocols (PedersenVSS, New-DKG, Joint-RVSS/ZVSS, CGJKR DKG incl. Refresh, "
+                text="229 scenarios per quick run over six protocols (PedersenVSS, New-DKG, Joint-RVSS/ZVSS, CGJKR DKG incl. Refresh, "
                      "JL-RVSS), n=2..7, every faulty singleton for n=4,5, deviations: built-in faulty switch, wrong share, false "
-                     "complaint, silence, altered broadcast, bad reveal, shifted sharing; honest-only runs with link delays and "
+                     "complaint, silence, altered broadcast, bad reveal, shifted sharing, unanswered complaint; thresholds n/3 <= t < n/2 with the broadcast configured at floor((n-1)/3) and deviating parties within it; honest-only runs with link delays and "
                      "pre-emption; QUAL/y/commitment agreement, share relations, every-subset interpolation, Reconstruct, Refresh, "
                      "and honest-timeout/split-timeout liveness markers within the synchrony assumption.",
                 note=SAN_NOTE + "; adversaries are scripted, not adaptive; virtual time keeps runs inside the synchrony assumption; open known findings listed in KNOWN_FINDINGS.txt"),
     "C16": dict(ready=True, engine="simnet", level="exploration", design_ref="DESIGN.md section 3 / C16, notes/c16.md",
                 technique="offline Python verifier (textbook Schnorr/DSA equations, library hash re-implemented with hashlib) over the outputs of simulated threshold signing runs; differential range-boundary probes of the library verifiers",
                 text="Threshold Schnorr (NTS) and threshold DSS runs in the simulator for n=3..5 (..7 thorough), messages "
-                     "{0,1,q-1,q,random}, faulty signer sets, before/after Refresh, reduced signer sets: every honest party whose "
+                     "{0,1,q-1,q,random}, faulty signer sets (library switch, scripted coins, corrupted key share, one altered broadcast at enumerated positions of the signing phase), before/after Refresh, reduced signer sets: every honest party whose "
                      "Sign returned true must hold the same signature, valid under the jointly generated key by an independent "
                      "implementation; Verify must agree with the reference on the range-boundary catalogue.",
                 note=SAN_NOTE + "; signing runs that return false under faults are recorded, not judged"),
     "C17": dict(ready=True, engine="two-party-engine", level="exploration", design_ref="DESIGN.md section 3 / C17, notes/c17.md",
                 technique="value-based trace monitor on the line channel (share not on the wire before the peer's commitment was read), agreement/sum oracle, binding oracle under the mutation catalogue; n-party runs in the simulator",
                 text="~400 two-party flips per quick run with harness peers (honest, withholding, adaptive, copycat, mismatching "
-                     "openings, mutated lines) in both roles, plus 42 n-party scenarios (n=2..5, slow party, single faulty "
-                     "parties): outputs agree and equal the sum of the qualified shares; the honest share never appears on the wire "
+                     "openings, mutated lines) in both roles, plus 71 n-party scenarios (n=2..5, slow party, single faulty "
+                     "parties, scripted deviations: wrong sub-share to one victim and/or the k-th own broadcast altered for every k): outputs agree and equal the sum of the qualified shares; the honest share never appears on the wire "
                      "before every commitment arrived; mismatching openings are rejected / reconstructed.",
                 note=SAN_NOTE),
     "C18": dict(ready=True, engine="two-party-engine", level="exploration", design_ref="DESIGN.md section 3 / C18, notes/c18.md",
